@@ -35,6 +35,7 @@ type Step struct {
 	Fill      uint64 `json:"fill,omitempty"`
 	Body      ev.Hex `json:"body,omitempty"` // explicit body (control types 4 and 5)
 	ChunkSize uint32 `json:"chunk_size,omitempty"`
+	Again     int    `json:"again,omitempty"` // msg only: 1 = the reader relays the message it received back to the writer; 2 = the writer sends the same Message object a second time
 }
 
 type Case struct {
@@ -172,6 +173,10 @@ func genCase(t *rapid.T) Case {
 				s.Len = genLen(t, out[s.Dir], max)
 				s.Fill = rapid.Uint64().Draw(t, "fill")
 				budget -= s.Len
+				if rapid.IntRange(0, 4).Draw(t, "againk") == 0 {
+					s.Again = rapid.IntRange(1, 2).Draw(t, "again")
+					budget -= s.Len
+				}
 			}
 		}
 		c.Steps = append(c.Steps, s)
@@ -213,7 +218,7 @@ type endpoint struct {
 }
 
 type stats struct {
-	multiChunk, extTs, afterScs, splitHeader bool
+	multiChunk, extTs, afterScs, splitHeader, relayed bool
 	msgs                                     int
 }
 
@@ -247,6 +252,7 @@ func runCase(c Case) (st stats, err error) {
 	for i, s := range c.Steps {
 		w, r := eps[s.Dir], eps[1-s.Dir]
 		var want rtmpref.Msg
+		var again *rtmp.Message
 		switch s.Kind {
 		case "scs":
 			pkt := rtmp.NewSetChunkSize()
@@ -287,6 +293,7 @@ func runCase(c Case) (st stats, err error) {
 			want = rtmpref.Msg{Type: s.Type, StreamID: s.Sid, Payload: body}
 		default:
 			m := rtmp.NewStreamMessage(int(s.Sid))
+			again = m
 			m.MessageType = rtmp.MessageType(s.Type)
 			m.Timestamp = uint64(s.Ts)
 			m.Payload = s.payload()
@@ -315,6 +322,36 @@ func runCase(c Case) (st stats, err error) {
 		}
 		if pipe[s.Dir].Len() != 0 {
 			return st, fmt.Errorf("step %d: %d bytes left unread after the message was returned", i, pipe[s.Dir].Len())
+		}
+		switch {
+		case s.Kind == "msg" && s.Again == 1:
+			// relay: the message just received is written back as it is
+			if e := r.WriteMessage(got); e != nil {
+				return st, fmt.Errorf("step %d: relaying the received message: %v", i, e)
+			}
+			sent[1-s.Dir] = append(sent[1-s.Dir], want)
+			back, e := w.ReadMessage()
+			if e != nil {
+				return st, fmt.Errorf("step %d: reading the relayed message (len=%d ts=%d, relay's chunk size %d): %v", i, len(want.Payload), want.Timestamp, out[1-s.Dir], e)
+			}
+			if e := rtmpx.Same(back, want); e != nil {
+				return st, fmt.Errorf("step %d: relayed message: %v", i, e)
+			}
+			st.relayed = true
+		case s.Kind == "msg" && s.Again == 2 && again != nil:
+			// the application sends the same Message value once more
+			if e := w.WriteMessage(again); e != nil {
+				return st, fmt.Errorf("step %d: second WriteMessage of the same Message: %v", i, e)
+			}
+			sent[s.Dir] = append(sent[s.Dir], want)
+			g2, e := r.ReadMessage()
+			if e != nil {
+				return st, fmt.Errorf("step %d: reading the message sent a second time: %v", i, e)
+			}
+			if e := rtmpx.Same(g2, want); e != nil {
+				return st, fmt.Errorf("step %d: message sent a second time: %v", i, e)
+			}
+			st.relayed = true
 		}
 	}
 	// independent view of the wire
@@ -409,7 +446,7 @@ var recSession = ev.New(prop, "session",
 	"rapid-generated sessions (handshake, then <=24 steps of WriteMessage / WritePacket(SetChunkSize) / WritePacket(control) in both directions, "+
 		"payload lengths relative to the writer's chunk size, boundary timestamps/stream ids/chunk sizes, reader segmentation whole/1-byte/drawn); "+
 		"non-trivial = a message spanning >=2 chunks, or ts>=0xFFFFFF, or a message after a Set Chunk Size, or a segmented reader; distinct by hash of the case").
-	Require("multi-chunk", "ext-ts", "after-scs", "segmented")
+	Require("multi-chunk", "ext-ts", "after-scs", "segmented", "relayed-or-resent")
 
 func check(c Case) error {
 	var st stats
@@ -430,6 +467,9 @@ func check(c Case) error {
 	}
 	if st.splitHeader {
 		cl = append(cl, "segmented")
+	}
+	if st.relayed {
+		cl = append(cl, "relayed-or-resent")
 	}
 	recSession.Case(len(cl) > 0, ev.Hash(c), cl, func() any { return c })
 	return err
